@@ -142,6 +142,7 @@ def check_with_lines(fx, rep, rule, impl, path, key_prefix):
         res = [(S.St(), (S.VAL, S.NONE))]       # after exhaustion find_map yields None
     else:
         L = sy.loops[sy.loop_order[0]]
+        L = unfold_filter_driver(sy, L)
     # parameter names: frame is the StackFrame-typed parameter, cache the ProguardCache-typed one
     frame = cache = None
     for prm in b["params"]:
@@ -183,7 +184,7 @@ def check_with_lines(fx, rep, rule, impl, path, key_prefix):
     rep.check(rule, "%s/exhausted-none/%s" % (key_prefix, impl), bool(tail_ok), loc=F.short_file(b["sp"]),
               found=[S.tstr(out[1]) for st, out in tails], expected="None after the last entry", nontrivial=False)
     # the loop is driven by the member iterator parameter, un-adapted
-    drv = driver_of_loop(L) if not L.get("find_map") else L["find_map"][2][0]
+    drv = L["driver"] if "driver" in L else (driver_of_loop(L) if not L.get("find_map") else L["find_map"][2][0])
     params = {prm["pat"]["name"] for prm in b["params"] if prm.get("pat") and prm["pat"]["k"] == "Bind"}
     drv_ok = drv is not None and ((drv[0] == "in" and drv[1] in params) or (drv[0] == "place" and drv[1] in params and not drv[2]))
     rep.check(rule, "%s/driver/%s" % (key_prefix, impl), drv_ok, loc=F.loc(L["node"]),
@@ -232,6 +233,56 @@ def driver_of_loop(L):
                 return L["pre"].env.get(v["id"])
             return None
     return None
+
+
+def unfold_filter_driver(sy, L):
+    """`for x in it.filter(|x| p(x)) { body }` is `for x in it { if !p(x) { continue } body }`: returns a loop record whose paths
+    carry the predicate's conditions (rejected elements are `continue` paths) and whose driver is `it`; L itself if the driver is
+    not a filter. The predicate must be effect-free."""
+    drv = driver_of_loop(L)
+    if not (drv is not None and drv[0] in ("call", "mcall") and drv[1].endswith("Iterator::filter") and len(drv[2]) == 2 and drv[2][1][0] == "closure"):
+        return L
+    nxt = None
+    for st, o in L["paths"]:
+        for a, p in st.conds:
+            if a[0] == "is" and a[2] == "Some" and a[1][0] == "mcall" and R.is_next(a[1][1]):
+                nxt = a[1]
+    if nxt is None:
+        return L
+    elem = S.mk_payload(nxt, "Some", "0")
+    try:
+        pp = sy.apply(drv[2][1], [elem], S.St(), {"sp": "?"})
+    except S.Undecidable:
+        return L
+    if any(st.effects for st, o in pp):
+        return L
+    base = len(L["entry"].conds)
+    paths = []
+    for st, (k, v) in L["paths"]:
+        extra = st.conds[base:]
+        has_some = any(a == ("is", nxt, "Some") and p for a, p in extra)
+        if not has_some:
+            paths.append((st, (k, v)))
+            continue
+        some_i = [i for i, (a, p) in enumerate(extra) if a == ("is", nxt, "Some")][0]
+        for pst, (pk, pv) in pp:
+            if pv == S.TRUE or pv == S.FALSE:
+                verdicts = [(pst.conds, pv == S.TRUE)]
+            else:
+                verdicts = [(pst.conds + ((pv if pv[0] in ("bool", "eq", "lt", "is", "empty", "not") else ("bool", pv), True),), True),
+                            (pst.conds + ((pv if pv[0] in ("bool", "eq", "lt", "is", "empty", "not") else ("bool", pv), False),), False)]
+            for pconds, keep in verdicts:
+                st2 = st.copy()
+                st2.conds = st.conds[:base] + extra[:some_i + 1] + tuple(pconds) + (extra[some_i + 1:] if keep else ())
+                if keep:
+                    paths.append((st2, (k, v)))
+                else:
+                    st2.effects = tuple(e for e in st.effects if e[0] == "call" and R.is_next(e[1]))
+                    paths.append((st2, (S.CONT, S.UNIT)))
+    L2 = dict(L)
+    L2["paths"] = paths
+    L2["driver"] = drv[2][0]
+    return L2
 
 
 def first_iteration_flags(sy, L):
